@@ -23,8 +23,11 @@ Qed.
 
 Definition handler_of (l : lang) : string := match l with Py => "python" | Ts | Js => "typescript" | Rs => "rust" end.
 
-Lemma ext_dispatch l : lookup (ext_of l) srp_ext_lang = Some (lang_key l) /\ lookup (lang_key l) srp_dispatch = Some (handler_of l).
-Proof. destruct l; split; reflexivity. Qed.
+Lemma ext_dispatch l e :
+  ext_ok l e = true -> lookup e srp_ext_lang = Some (lang_key l) /\ lookup (lang_key l) srp_dispatch = Some (handler_of l).
+Proof.
+  destruct l; cbn [ext_ok]; intros H; try apply orb_prop in H; try destruct H as [H | H]; apply String.eqb_eq in H; subst e; split; reflexivity.
+Qed.
 
 (* ------------------------------------------------------------------ evaluate_metrics + build_violation *)
 Lemma class_rep_py name mc loc kw line col hl hc cfg :
